@@ -172,9 +172,24 @@ def run(ctx):
                 ctx.mark(("wal", m), nontrivial=out.startswith("ok"))
                 if out.startswith("ok") != good:
                     ctx.oracle_fail("wal-header", "WAL header acceptance differs from the format rule", {"hex": hx(m)}, out, good)
+                elif good:
+                    # the property itself, stated without the model: every reported field is the big-endian value on disk
+                    # (walformat: magic, version, page size, checkpoint sequence, salt-1, salt-2, checksum-1, checksum-2)
+                    f = struct.unpack(">8I", m)
+                    want = f"ok m{f[0]},fv{f[1]},ps{f[2]},cs{f[3]},s1{f[4]},s2{f[5]},c1{f[6]},c2{f[7]}"
+                    if out != want:
+                        ctx.oracle_fail("wal-header-field", "a reported WAL header field differs from the bytes in the file",
+                                        {"hex": hx(m)}, out, want)
         for _ in range(300):
             m = bytes(r.randint(0, 255) for _ in range(r.choice([24, 24, 24, 23, 25, 0])))
-            cases.append((f"hdr.frame {hx(m)}", impl_frame(m)))
+            fo = impl_frame(m)
+            cases.append((f"hdr.frame {hx(m)}", fo))
+            if len(m) == 24:
+                f = struct.unpack(">6I", m)
+                want = f"ok p{f[0]},sz{f[1]},s1{f[2]},s2{f[3]},c1{f[4]},c2{f[5]}"
+                if fo != want:
+                    ctx.oracle_fail("frame-header-field", "a reported WAL frame header field differs from the bytes in the file",
+                                    {"hex": hx(m)}, fo, want)
             j = bytes(r.randint(0, 255) for _ in range(r.choice([28, 28, 28, 27, 29])))
             if r.random() < 0.3 and len(j) == 28:
                 j = j[:8] + b"\xff\xff\xff\xff" + j[12:]
@@ -184,12 +199,14 @@ def run(ctx):
         ctx.differential(cases, "hdr.wal/frame/journal")
         ctx.differential(W.run_header(ctx), "hdr.walindex")      # WAL-index (-shm) header: harness/props/walindex.py
         # histories: header of each version vs PRAGMA values after that commit
-        n = 24 if ctx.thorough() else 6
+        n = 25 if ctx.thorough() else 7
         for i in range(n):
             cfg = F.random_cfg(r, page_sizes=[512, 1024, 4096], small=True)
-            kind = ["header_pragmas", "ddl", "plain", "grow_shrink"][i % 4]
+            # (fresh_wal: the file is still empty when the log starts, so schema format and text encoding go from 0 to
+            # their values in the first commit of the log - the one header step in which those two fields change)
+            kind = ["header_pragmas", "fresh_wal", "ddl", "plain", "grow_shrink"][i % 5]
             if kind == "header_pragmas":
-                cfg["auto_vacuum"] = [1, 2, 0][(i // 4) % 3]     # FULL <-> INCREMENTAL switches inside the log
+                cfg["auto_vacuum"] = [1, 2, 0][(i // 5) % 3]     # FULL <-> INCREMENTAL switches inside the log
             h = H.make_history(sc.path(f"h{i}"), cfg, r, kind=kind)
             n0 = len(ctx.oracle_failures)
             for mem in (False, True):
